@@ -42,6 +42,9 @@ DUO_OPS = {
 }
 
 
+BURST_PROPS = ('C05', 'C13', 'C14', 'C10', 'C11', 'C20')      # second-thread operations cheap enough to repeat a thousand times
+
+
 def applicable(prop, plan):
     if prop not in DUO_OPS:
         return False
@@ -56,6 +59,11 @@ def duo_config(seed, prop, plan=None):
     rng = random.Random(seed ^ 0x5a5a5a5a)
     cfg = {'seed': rng.randrange(1 << 31), 'p': rng.choice([0.002, 0.01, 0.03, 0.1]), 'quantum': rng.choice([2, 8, 40, 400]),
            'nops': rng.choice([2, 3, 5, 8]), 'kinds': DUO_OPS[prop], 'cap': 2000}
+    if rng.random() < 0.4 and prop in BURST_PROPS:
+        # one single pre-emption of the first thread, at a line that writes to shared state or calls into OpenSSL, and
+        # the second thread then runs ALL its operations - each followed by a burst of more than a thousand unjudged
+        # repetitions - while the first stays parked there (pools of scratch objects handed out round-robin wrap around)
+        cfg.update(p=0.0, hot=1.0, cap=1, quantum=10 ** 9, nops=len(DUO_OPS[prop]), each_kind_once=True, burst=1100, skip=rng.randrange(rng.choice([300, 3000, 3000, 6000])))
     if prop == 'C18' and plan is not None:
         cfg['chain'] = plan['config']['parties'][0]['chain']
     if prop in SHARED_KINDS:
@@ -74,8 +82,8 @@ def build_ops(cfg):
     """Operation descriptors (plain data) for thread B, derived from cfg['seed']."""
     rng = random.Random(cfg['seed'])
     ops = []
-    for _ in range(cfg['nops']):
-        k = rng.choice(cfg['kinds'])
+    for n_ in range(cfg['nops']):
+        k = cfg['kinds'][n_ % len(cfg['kinds'])] if cfg.get('each_kind_once') else rng.choice(cfg['kinds'])
         if k in ('txrt', 'txids', 'snapshot', 'checktx', 'sighash'):
             ops.append({'k': k, 'spec': gen.gen_tx(rng, 3, 3), 'mutable': rng.random() < 0.5, 'ht': rng.choice([1, 2, 3, 0x81, 0x83]), 'script': gen.rhex(rng, rng.randint(0, 30))})
         elif k in ('blockrt', 'checkblock'):
@@ -309,6 +317,32 @@ def run_op(o):
     raise ValueError(k)
 
 
+def cheap_repeat(o):
+    """A callable that repeats the LIBRARY part of an operation (the reference computations done once, here), or None
+    if the operation has no cheap repetition."""
+    lib()
+    import bitcoin.core.key as K
+    k = o['k']
+    if k in ('msgdigest', 'b58', 'b58check', 'bech32', 'murmur', 'bloom', 'varint'):
+        return lambda: run_op(o)
+    if k in ('recover', 'pubverify'):
+        EC = _ec()
+        d = int(o['d'], 16)
+        pub = EC.point_encode(EC.mul(d, EC.G), o['comp'])
+        digest = bytes.fromhex(o['digest'])
+        r, s_, rec = EC.sign_with_k(d, int.from_bytes(digest, 'big'), int(o['nonce'], 16) % (EC.N - 1) + 1)
+        if r == 0 or s_ == 0:
+            return None
+        r, s_, rec = EC.low_s(r, s_, rec)
+        if k == 'recover':
+            sig = bytes([27 + rec + (4 if o['comp'] else 0)]) + r.to_bytes(32, 'big') + s_.to_bytes(32, 'big')
+            return lambda: K.CPubKey.recover_compact(digest, sig)
+        der = EC.der_encode(r, s_)
+        P = K.CPubKey(pub)
+        return lambda: P.verify(digest, der)
+    return None
+
+
 def _safe(o):
     params0 = lib().params
     try:
@@ -346,6 +380,8 @@ class Duo:
         self.cap = cfg.get('cap')             # at most this many switches (None: no limit)
         self.op_cap = cfg.get('op_cap')       # ... and at most this many per operation of the first thread
         self.op_switches = 0
+        self.skip = cfg.get('skip', 0)        # this many of those lines pass before the first switch may happen
+        self.only_returns = cfg.get('only_returns', False)   # switch only where a callee that wrote shared state has just returned
         self._hotcache = {}
         self._after = {}
         self.rng = random.Random(cfg['seed'] * 7919 + 1)
@@ -378,19 +414,29 @@ class Duo:
                 hs = self._hotcache.get(code)
                 if hs is None:
                     hs = self._hotcache[code] = _hot_lines(code)
-                if self._after.pop(id(frame), None):
+                mark = self._after.pop(id(frame), None)
+                if mark and (mark == 2 or not self.only_returns):
                     p = max(p, self.hot)
                 if frame.f_lineno in hs:
                     self._after[id(frame)] = True
-                    p = max(p, self.hot / 2)
+                    if not self.only_returns:
+                        p = max(p, self.hot / 2)
+                if self.skip > 0 and p > self.p:
+                    self.skip -= 1
+                    p = self.p
             if self.rng.random() < p and (self.cap is None or self.switches < self.cap) and (self.op_cap is None or self.op_switches < self.op_cap):
                 self.budget = self.rng.randint(1, self.quantum)
                 self.switches += 1
                 self.op_switches += 1
                 self.semB.release()
                 self.semA.acquire()
-        elif event == 'return' and self._after:
-            self._after.pop(id(frame), None)
+        elif event == 'return':
+            if self._after:
+                self._after.pop(id(frame), None)
+            if self.hot and frame.f_back is not None and self._hotcache.get(frame.f_code):
+                # a callee that writes shared state (or calls into OpenSSL) has just returned: the caller's next line is
+                # where it picks the result up
+                self._after[id(frame.f_back)] = 2
         return self._lA
 
     # thread B
